@@ -196,6 +196,30 @@ pub fn run(ctx: &Ctx) -> i32 {
             }
         });
     }
+    // (c) literal characters that alias a symbol (same low byte as the symbol's ASCII code, in four
+    // Unicode blocks) or are 2-, 3- and 4-byte characters, directly after a symbol run or quoted text
+    let mut lits: Vec<char> = vec!['é', '年', '€', '😀', 'ſ', 'ı', '\u{212A}'];
+    for b in format!("{}{}'", DATE_SYMS, TIME_SYMS).bytes() {
+        for block in [0x100u32, 0x200, 0x400, 0x1E00] {
+            if let Some(c) = char::from_u32(block + b as u32) {
+                lits.push(c);
+            }
+        }
+    }
+    let nl = lits.len() as u64;
+    for kind in 0..3u8 {
+        let pieces = piece_alphabet(kind);
+        let np = pieces.len() as u64;
+        let lits = lits.clone();
+        rep.sweep(&format!("aliasing literals ({}): every piece x {} literal characters x {{end, same piece again}} x 4 values", ["Date", "Time", "DateTime"][kind as usize], nl), np * nl * 2 * 4, "a non-symbol character is a literal whatever its code point", |i, acc| {
+            let (d, n, o) = vals[(i % 4) as usize * 5];
+            let again = i / 4 % 2 == 1;
+            let lit = lits[(i / 8 % nl) as usize];
+            let piece = &pieces[(i / (8 * nl)) as usize];
+            let pat = format!("{}{}{}", piece, lit, if again { piece.as_str() } else { "" });
+            case_format(kind, d, n, o, &pat, acc);
+        });
+    }
     // (d) Display impls: the documented default patterns, on the value set (with offsets)
     rep.sweep("Display: Date / Time / DateTime to_string() on the value set", vals.len() as u64 * 3, "yyyy/MM/dd, HH:mm:ss, yyyy/MM/dd HH:mm:ss in the value's offset", |i, acc| {
         let kind = (i % 3) as u8;
